@@ -147,7 +147,7 @@ def get_real_bipartite_numerical_range(mat, kind='min', method='eigen'):
     return ret
 
 
-def detect_real_matrix_subspace_rank_one(matrix_subspace):
+def detect_real_matrix_subspace_rank_one(matrix_subspace, zero_eps=1e-7):
     r'''detect whether a real matrix subspace has nonzero rank-one element
 
     Given a series of real matrices $A_i$, the matrix subspace spanned over real field is defined as
@@ -172,7 +172,7 @@ def detect_real_matrix_subspace_rank_one(matrix_subspace):
     tmp0 = basis.reshape(basis.shape[0], dimA*dimB)
     projector = tmp0.T @ tmp0
     upper_bound = get_real_bipartite_numerical_range(projector.reshape(dimA,dimB,dimA,dimB), kind='max')
-    if upper_bound < 1:
+    if upper_bound < (1-zero_eps): #upper_bound is exactly 1 (up to rounding error) if there is a rank-one element
         tag_rank_one = False
     else:
         tag_rank_one = True #could be wrong
